@@ -325,19 +325,37 @@ func R47() Rule {
 			c.Fn(core.FuncName(fn))
 			ok := true
 			var at token.Pos = fn.Pos()
-			for _, st := range stores {
-				for _, site := range P.ExecSites(fn, st, within) {
-					dominated := false
-					for _, b := range fn.Blocks {
-						for _, in := range b.Instrs {
-							if stamps(in) && core.InstrDominates(in, site) {
-								dominated = true
-							}
+			// the stamp dominates the store in the function that contains it, or — failing that — at every
+			// place that function is called / created from, up to the RPC method (the locked part of the
+			// RPC may be wrapped in a function literal of its own: `func() { defer tbl.lockForWrite()(); … }()`)
+			var stampedBefore func(site ssa.Instruction, depth int) bool
+			stampedBefore = func(site ssa.Instruction, depth int) bool {
+				f := site.Parent()
+				for _, b := range f.Blocks {
+					for _, in := range b.Instrs {
+						if stamps(in) && core.InstrDominates(in, site) {
+							return true
 						}
 					}
-					if !dominated {
-						ok, at = false, site.Pos()
+				}
+				if f == fn || depth > 6 {
+					return false
+				}
+				nRef := 0
+				for _, r := range P.Refs(f) {
+					if !within[r.Instr.Parent()] {
+						continue
 					}
+					nRef++
+					if !stampedBefore(r.Instr, depth+1) {
+						return false
+					}
+				}
+				return nRef > 0
+			}
+			for _, st := range stores {
+				if !stampedBefore(st, 0) {
+					ok, at = false, st.Pos()
 				}
 			}
 			c.Check(ok, "R47", core.FuncName(fn)+"/write-activity-stamped", at, "every path to the row store passes a call or defer of table.write()", "a row can be stored without the table's write-activity clock being stamped: the background collector does not see the write (it runs on a table in use, and after its next pass the table is never collected again)")
